@@ -364,6 +364,10 @@ def _misc_shard(arg):
               "extdir = directory('ext lib')\n"
               "executable('useext', ['extuser.%(e)s'], link_options=[opts.lib_dir(extdir), opts.lib('ext'), "
               "opts.rpath_dir(extdir.path)])\n"
+              # lib_literal words keep their place among the libraries: -Bstatic ... -Bdynamic around
+              # one library selects its static archive (both libext2.a and libext2.so exist)
+              "executable('useext3', ['ext2user.%(e)s'], link_options=[opts.lib_dir(extdir), "
+              "opts.lib_literal('-Wl,-Bstatic'), opts.lib('ext2'), opts.lib_literal('-Wl,-Bdynamic')])\n"
               "prebuilt = shared_library('ext lib/libext.so')\n"
               "executable('useext2', ['extuser.%(e)s'], libs=[prebuilt])\n" % dict(e=ext))
     # a library that exists before configure: found through lib_dir + lib, loaded through rpath_dir
@@ -372,6 +376,16 @@ def _misc_shard(arg):
         f.write('int ext_value(void) { return 7; }\n')
     subprocess.run(['gcc', '-shared', '-fPIC', os.path.join(root, 'ext.c'), '-o',
                     os.path.join(src, 'ext lib', 'libext.so')], check=True)
+    for val, kind in ((9, 'a'), (5, 'so')):
+        with open(os.path.join(root, 'ext2.c'), 'w') as f:
+            f.write('int ext2_value(void) { return %d; }\n' % val)
+        if kind == 'a':
+            subprocess.run(['gcc', '-c', os.path.join(root, 'ext2.c'), '-o', os.path.join(root, 'ext2.o')], check=True)
+            subprocess.run(['ar', 'rcs', os.path.join(src, 'ext lib', 'libext2.a'), os.path.join(root, 'ext2.o')],
+                           check=True)
+        else:
+            subprocess.run(['gcc', '-shared', '-fPIC', os.path.join(root, 'ext2.c'), '-o',
+                            os.path.join(src, 'ext lib', 'libext2.so')], check=True)
     bfg.write_tree(src, {'build.bfg': script, 'lib.' + ext: xc + LIB_C.strip() + '\n',
                          'libmain.' + ext: LIBMAIN_C.replace('int lib_pic(void);', xc + 'int lib_pic(void);'),
                          'math.' + ext: MATH_C, 'pch.h': '#define FROM_PCH 7\n',
@@ -381,6 +395,8 @@ def _misc_shard(arg):
                          'thr.' + ext: '#include <stdio.h>\n#include <pthread.h>\nstatic void *f(void *p){return p;}\n'
                                        'int main(void){pthread_t t; pthread_create(&t, 0, f, 0); pthread_join(t, 0);\n'
                                        '#ifdef _REENTRANT\nprintf("THR=1\\n");\n#else\nprintf("THR=0\\n");\n#endif\nreturn 0;}\n',
+                         'ext2user.' + ext: '#include <stdio.h>\n' + xc + 'int ext2_value(void);\n'
+                                            'int main(void){printf("EXT2=%d\\n", ext2_value());return 0;}\n',
                          'extuser.' + ext: '#include <stdio.h>\n' + xc + 'int ext_value(void);\n'
                                            'int main(void){printf("EXT=%d\\n", ext_value());return 0;}\n'})
     env = bfg.base_env(extra=ccenv)
@@ -389,7 +405,8 @@ def _misc_shard(arg):
         res.append(('pic/lib/pch/include', 'configure fails: ' + r.err[-300:]))
     else:
         for name, want in (('usepic', 'PIC=1'), ('usem', 'POW='), ('usepch', 'PCH=7'), ('useinc', 'INC=9'),
-                           ('usethread', 'THR=1'), ('useext', 'EXT=7'), ('useext2', 'EXT=7')):
+                           ('usethread', 'THR=1'), ('useext', 'EXT=7'), ('useext2', 'EXT=7'),
+                           ('useext3', 'EXT2=9')):
             rc, out = bfg.run_tool(['make', name], bld, env)
             o = ''
             if rc == 0:
